@@ -154,6 +154,27 @@ def case_flags(fam, rep):
     return fn
 
 
+def case_extrapolate_lagrange(rep):
+    """Gauss-Legendre quad / hexahedron regions of higher order (arbitrary-order Lagrange): a multilinear field sampled at the
+    points is recovered from its quadrature-point values."""
+    def fn(run):
+        import felupe as fem
+        rng = rng_for(run.seed, "C19", "extrapolate-lagrange", rep)
+        for dim in (2, 3):
+            for order in (1, 2, 3, 4)[: (4 if dim == 2 else 3)]:
+                mesh = gen.lagrange_mesh(order, dim)
+                reg = fem.RegionLagrange(mesh, order=order, dim=dim)
+                p = Poly(rng, dim, monomials_tensor(dim, 1))
+                nodal = p(mesh.points)
+                vq = fem.Field(reg, dim=1, values=nodal.reshape(-1, 1)).interpolate()
+                got = fem.tools.extrapolate(vq, reg).ravel()
+                grp = "order<=2" if order <= 2 else "order>=3"
+                run.compare("post.extrapolate", "template=RegionLagrange(%s) clause=reproduces-multilinear" % grp, maxabs(got - nodal) / max(maxabs(nodal), 1e-300), 1e-10,
+                            "extrapolate() on a RegionLagrange of order %d (dim %d) does not reproduce a multilinear field at the points" % (order, dim),
+                            unit="extrapolate:lagrange:" + grp, config=("extrapolate-lagrange", order, dim))
+    return fn
+
+
 def case_extrapolate(fam, rep):
     def fn(run):
         import felupe as fem
@@ -399,6 +420,8 @@ def cases(tier, seed):
     for fam in ("quad", "hexahedron", "hexahedron20", "tetra", "triangle6"):
         for rep in range(reps):
             out.append(("topoints:%s:%d" % (fam, rep), case_topoints(fam, rep)))
+    for rep in range(reps):
+        out.append(("extrapolate-lagrange:%d" % rep, case_extrapolate_lagrange(rep)))
     for kind, fam in (("3d", "hexahedron"), ("3d", "tetra10"), ("planestrain", "quad"), ("axisymmetric", "quad8"), ("3d", "hexahedron20")):
         for rep in range(2 * reps):
             out.append(("views:%s:%s:%d" % (kind, fam, rep), case_stress_and_views(kind, fam, rep)))
@@ -412,7 +435,7 @@ def cases(tier, seed):
 
 SPEC = {
     "required_units": ["project:reproduction:quad", "project:reproduction:hexahedron", "project:reproduction:tetra10", "project:integral:quad9",
-                       "project:reproduction:tetraMINI", "extrapolate:quad", "extrapolate:hexahedron", "topoints:average", "topoints:mean",
+                       "project:reproduction:tetraMINI", "extrapolate:quad", "extrapolate:hexahedron", "extrapolate:lagrange:order<=2", "topoints:average", "topoints:mean",
                        "project:length-scale:0.004", "project:length-scale:250", "flags:extrapolate:average=False", "flags:extrapolate:mean=True", "flags:extrapolate:mean=True,average=False", "flags:project:average=False",
                        "flags:project:dV", "flags:project:mean=True", "flags:project:simplex", "flags:topoints:average=False", "flags:topoints:mean=True",
                        "flags:topoints:single-point", "stress:no-field-argument", "view:Stress[first Piola-Kirchhoff]", "view:Deformation Gradient:points", "view:Deformation Gradient:single-cell",
